@@ -129,6 +129,7 @@ class ModuleCheck:
 
     # -- verdict ------------------------------------------------------------
     def judge(self, pid, trace_file, work, seed, tag):
+        self.unrepresentable = []
         res = vlib.validate_trace(self.trace_spec, self.trace_cfg, trace_file, work)
         known = vlib.load_known()
         lines = None
@@ -143,6 +144,11 @@ class ModuleCheck:
             rec = json.loads(lines[ln - 1])
             rec["why"] = why
             for c in mine:
+                if c.endswith("_ScaleExact"):
+                    # the harness could not express an observed value exactly in model units:
+                    # the step cannot be judged (inconclusive), it is not a statement about the property
+                    self.unrepresentable.append((ln, c))
+                    continue
                 kf = match_known(known, pid, c, rec)
                 if kf:
                     known_hits.setdefault(kf["id"], kf)
@@ -208,6 +214,7 @@ class ModuleCheck:
                     shutil.copyfileobj(f, out)
         ntr = vlib.count_traces(allf)
         res, viol, known_hits, other = self.judge(pid, allf, work, seed, "run")
+        unrep = list(self.unrepresentable)
         log(f"[time] trace validation {time.time()-t3:.0f}s")
         log(f"[trace] {ntr} traces / {res['lines']} events validated in {res['shards']} shards; "
             f"drift steps={res['drift']}; clause failures: mine={len(viol)} known={len(known_hits)} other={len(other)}")
@@ -251,6 +258,10 @@ class ModuleCheck:
             log(f"clause {clause} failed on a real-code trace (and {len(viol)-1} more clause instances)")
             print(f"VIOLATION property={pid} replay={path}", flush=True)
             return 1, cov, len(viol)
+        if unrep:
+            log(f"INCONCLUSIVE property={pid}: {len(unrep)} step(s) carried a value the harness could not express exactly "
+                f"in model units (first: {unrep[0][1]} at trace line {unrep[0][0]}); those steps were not judged")
+            return 2, cov, 0
         if cex_traces:
             log(f"MODEL-ONLY: TLC found {[p for _, p, _ in cex_traces]} in the model but the real code "
                 f"satisfies every clause on the replayed counterexample; the model is wrong or a known finding masks it")
